@@ -178,7 +178,7 @@ def _mk_safelist(n):
     return _sl
 
 
-for _n in (1, 2, 3):
+for _n in (1, 2, 3, 4):          # count = 4: thorough tier only
     _mk_safelist(_n)
 
 
@@ -312,7 +312,7 @@ def _mk_realize(n):
     return _rf
 
 
-for _n in (1, 2, 3):
+for _n in (1, 2, 3, 4):          # n = 4: thorough tier only
     _mk_realize(_n)
 
 
